@@ -26,7 +26,7 @@ def gl(n):
 
 
 class Result:
-    __slots__ = ("value", "err", "maxmag", "evals", "leaves", "finite", "rounds")
+    __slots__ = ("value", "err", "maxmag", "l1", "evals", "leaves", "finite", "rounds")
 
     def __repr__(self):
         return (f"Result(value={self.value:.6e}, err={self.err:.3e}, maxmag={self.maxmag:.3e}, "
@@ -67,6 +67,7 @@ def _rule(f, pid, lo, hi, n, dim, stat, flagf=None):
         stat["maxmag"] = max(stat["maxmag"], float(np.max(mag)))
     vol = np.prod(hi - lo, axis=1)
     V = (vals.reshape(k, m) * ww[None, :]).sum(axis=1) * vol
+    A = (np.abs(vals).reshape(k, m) * ww[None, :]).sum(axis=1) * vol      # integral of |integrand|
     bound = np.zeros(k)
     if flagf is not None and k:
         cg = _corners(dim)
@@ -78,7 +79,7 @@ def _rule(f, pid, lo, hi, n, dim, stat, flagf=None):
         cut = np.any(fl.max(axis=1) != fl.min(axis=1), axis=1)
         vv = vals.reshape(k, m)
         bound = np.where(cut, (vv.max(axis=1) - vv.min(axis=1)) * vol, 0.0)
-    return V, bound
+    return V, bound, A
 
 
 def _split(pid, lo, hi, dim):
@@ -121,14 +122,14 @@ def integrate(f, dim, npatch, init, measure, target_rel, max_evals, n=5, max_rou
     pid = np.repeat(np.arange(npatch), nb)
     lo = np.tile(lo0, (npatch, 1))
     hi = np.tile(hi0, (npatch, 1))
-    V, _ = _rule(f, pid, lo, hi, n, dim, stat, flagf)
+    V, _, _ = _rule(f, pid, lo, hi, n, dim, stat, flagf)
 
     def expand(pid, lo, hi, V):
         cp, clo, chi, C = _split(pid, lo, hi, dim)
-        cV, cB = _rule(f, cp, clo, chi, n, dim, stat, flagf)
+        cV, cB, cA = _rule(f, cp, clo, chi, n, dim, stat, flagf)
         val = cV.reshape(-1, C).sum(axis=1)
         return {"cp": cp.reshape(-1, C), "clo": clo.reshape(-1, C, dim), "chi": chi.reshape(-1, C, dim),
-                "cV": cV.reshape(-1, C), "val": val,
+                "cV": cV.reshape(-1, C), "val": val, "abs": cA.reshape(-1, C).sum(axis=1),
                 "err": np.abs(val - V) + cB.reshape(-1, C).sum(axis=1)}
 
     L = expand(pid, lo, hi, V)
@@ -137,8 +138,10 @@ def integrate(f, dim, npatch, init, measure, target_rel, max_evals, n=5, max_rou
     rounds = 0
     while True:
         E = float(L["err"].sum())
-        scale = stat["maxmag"] * measure
-        target = target_rel * scale
+        # the target is relative to the integral of |integrand| (the conditioning scale of the sum), not to
+        # max|F| * measure: a long loop that comes close to a wire has a tiny integral of |H.dl| compared
+        # with max|H| * length
+        target = target_rel * float(L["abs"].sum())
         rounds += 1
         if E <= target or rounds > max_rounds or not stat["finite"]:
             break
@@ -165,6 +168,7 @@ def integrate(f, dim, npatch, init, measure, target_rel, max_evals, n=5, max_rou
     r.value = float(L["val"].sum())
     r.err = float(L["err"].sum())
     r.maxmag = stat["maxmag"]
+    r.l1 = float(L["abs"].sum())
     r.evals = stat["evals"]
     r.leaves = len(L["val"])
     r.finite = stat["finite"]
